@@ -13,7 +13,7 @@ from krrood.entity_query_language.quantify_entity import an
 from krrood.entity_query_language.conclusion import Add
 from krrood.entity_query_language.rule import refinement, alternative, next_rule
 
-from .eqlworld import P, eql_reset, index_of
+from .eqlworld import P, VP, eql_reset, index_of
 
 PROPERTY = "C08"
 LEVEL = "model_checking"
@@ -76,16 +76,17 @@ def number(spec):
     return tree, nodes, name
 
 
-def harness(spec, N_objs, two_vars, abandoned_first=False):
+def harness(spec, N_objs, two_vars, abandoned_first=False, value_eq=False):
     tree, nodes, name = number(spec)
     idx = {id(n): i for i, n in enumerate(nodes)}
 
     def h(ctx):
-        xs = [P(ctx.fresh_int("xa%d" % i), ctx.fresh_int("xb%d" % i)) for i in range(N_objs)]
-        ys = [P(ctx.fresh_int("ya%d" % i)) for i in range(N_objs)] if two_vars else [None]
+        PC = VP if value_eq else P  # VP: a dataclass with field equality (distinct objects may compare equal)
+        xs = [PC(ctx.fresh_int("xa%d" % i), ctx.fresh_int("xb%d" % i)) for i in range(N_objs)]
+        ys = [PC(ctx.fresh_int("ya%d" % i)) for i in range(N_objs)] if two_vars else [None]
         ks = [ctx.fresh_int("k%d" % i) for i in range(len(nodes))]
-        x = let(P, xs, name="x")
-        y = let(P, ys, name="y") if two_vars else None
+        x = let(PC, xs, name="x")
+        y = let(PC, ys, name="y") if two_vars else None
 
         def cond_expr(i):
             # conditions alternate over x.a, x.b and (two-variable mode) y.a so that no node's condition implies another's
@@ -331,6 +332,11 @@ def cases(tier, seed):
         h, name = harness(t, 2, False, abandoned_first=True)
         nm = "tree %s|x|after an abandoned partial evaluation" % name
         cs.append(Case(nm + "|N=2", h, key=nm, reset=eql_reset, core=True, timeout=300 if tier == "quick" else 1200, max_paths=50000 if tier == "quick" else 400000, validate=1, cex_grace=10**9))
+    # domain objects that compare equal without being the same object (dataclass equality): each is a binding of its own
+    for t in [N(ref=[L_]), N(ref=[L_, L_]), N(alts=[L_]), N(alts=[L_, L_])]:
+        h, name = harness(t, 2, False, value_eq=True)
+        nm = "tree %s|x|value-equal domain objects" % name
+        cs.append(Case(nm + "|N=2", h, key=nm, reset=eql_reset, core=True, timeout=300 if tier == "quick" else 1200, max_paths=50000 if tier == "quick" else 400000, validate=1, cex_grace=10**9))
     for (n_ref, n_alt) in [(1, 0), (2, 0), (0, 1), (0, 2), (1, 1), (2, 1)] + ([(3, 0)] if tier == "thorough" else []):
         nm = "branches with variables of their own|refinement chain=%d,alternatives=%d" % (n_ref, n_alt)
         cs.append(Case(nm + "|N=2", local_harness(n_ref, n_alt, 2), key=nm, reset=eql_reset, core=True, timeout=300 if tier == "quick" else 1200,
@@ -342,7 +348,7 @@ def describe(tier):
     return dict(
         rule="rule trees written with the public with-block API: node i = condition over x.a / x.b / y.a with its own symbolic threshold k_i and its own inferred type T_i; "
         "shapes: nested refinements (depth <= 3), alternatives inside a refinement's block, alternative chains (<= 3), next_rule branches (<= 2), refinements inside "
-        "alternative / next_rule blocks and combinations (<= 6 branches); one-variable and two-variable (base binds x and y) variants; the one-variable trees again after an evaluation of the same query object that was consumed partly (1-2 results) and dropped; plus trees whose branches each bind a variable of their own (v_i.a == x.a, 1-2 values) and build their conclusion from it. "
+        "alternative / next_rule blocks and combinations (<= 6 branches); one-variable and two-variable (base binds x and y) variants; the one-variable trees again after an evaluation of the same query object that was consumed partly (1-2 results) and dropped; the same trees over domain objects with field equality (distinct but equal objects); plus trees whose branches each bind a variable of their own (v_i.a == x.a, 1-2 values) and build their conclusion from it. "
         "Tree notation in case names: i(R[..] A[..] X[..]) = node i with refinement chain R, alternatives A, next rules X, numbered in written order; "
         "non-trivial = >= 2 feasible paths and some instance inferred",
         bounds=dict(objects_per_domain="2 (quick) / 3 (thorough, one-variable)", values_and_thresholds="unbounded integers", branches="<= 6"),
